@@ -52,7 +52,7 @@ var profiles = map[string]*Profile{
 	"memo13": {Name: "memo13", PDep: 0.6, MinRules: 2, MaxRules: 5, UseTop: true, DynSel: 0.3, PMethod: 0.4, PRetract: 0.1, PComplete: 0.02,
 		PSetter: 0.1, PHeavy: 1, OneHeavy: true, PFault: 0.12, Saliences: []int64{-1, 0, 0, 1}, MaxActs: 3, PTrueish: 0.3, POnce: 0.1},
 	"fault": {Name: "fault", UseJSON: true, PRepoint: 0.05, PDep: 0.5, MinRules: 2, MaxRules: 4, UseTop: true, DynSel: 0.4, PMethod: 0.3, PFault: 0.35, PRetract: 0.15, PComplete: 0.05,
-		Saliences: []int64{-1, 0, 0, 1}, MaxActs: 3, PTrueish: 0.4, POnce: 0.2},
+		PSetter: 0.2, Saliences: []int64{-1, 0, 0, 1}, MaxActs: 3, PTrueish: 0.4, POnce: 0.2},
 	"fetch": {Name: "fetch", MinRules: 2, MaxRules: 6, UseTop: true, DynSel: 0.2, PMethod: 0.3, PFault: 0.15, PRetract: 0.1, PComplete: 0.05,
 		Saliences: []int64{-3, -1, 0, 0, 0, 1, 1, 9}, MaxActs: 2, PTrueish: 0.5, PRemoved: 0.25, PStr: 0.2},
 }
